@@ -728,6 +728,9 @@ func unescapeBackTickSpecialStr(l *syntax.Lexer, srcLiteral []rune) []rune {
 			} else {
 				goto UNDONE_end
 			}
+		case syntax.RuneCR, syntax.RuneLF:
+			// a line break ends the escape attempt: it is left to parseString, which records the new line
+			goto UNDONE_end
 		}
 
 		// never step over the end of text: an unfinished escape sequence is kept as it is
